@@ -1587,7 +1587,7 @@ def own8(units, R):
                      '%s->%s now points at memory whose ownership is described by %s->type, but %s is not carried over: '
                      'borrowed memory would be released (or owned memory leaked)' % (X, l['f'], Y, flag)),
                      key='carry:%s:%s' % (l['f'], Y))
-    R.floor('OWN8', 'payload pointers copied between nodes', n, 1)
+    R.floor('OWN8', 'payload pointers copied between nodes', n, 0)
 
 
 # ---- DEL1: cJSON_Delete releases exactly what the node owns ---------------------------------------------------------
